@@ -888,4 +888,61 @@ theorem int_value (base : Nat) (front ds : List Byte) (h : IntSpelling base fron
     simp only [List.nil_append, List.cons_append, List.length_nil]
     exact detectBase_dec d _ hd0
 
+-- ------------------------------------------------------------------ character constants
+
+theorem findQuote_here (p : List Byte) (fuel j : Nat) (hj : j < p.length) (h : byteAt p j = 39#8) :
+    findQuote p (fuel + 1) j = some j := by
+  rw [findQuote]
+  have : ¬ j ≥ p.length := by omega
+  simp [this, h]
+
+/-- a character constant whose body is one source character -/
+theorem readCharLiteral_char (pre post : List Byte) (c : BitVec 32) (hc : c.toNat < 0x110000) (h0 : c.toNat ≠ 0)
+    (h92 : c.toNat ≠ 92) :
+    readCharLiteral (pre ++ 39#8 :: (encodeUtf8 c ++ 39#8 :: post)) pre.length =
+      .ok (c, pre.length + 1 + utf8Len c.toNat) := by
+  have hd : (pre ++ 39#8 :: (encodeUtf8 c ++ 39#8 :: post)).drop (pre.length + 1) = encodeUtf8 c ++ 39#8 :: post := by
+    have : pre ++ 39#8 :: (encodeUtf8 c ++ 39#8 :: post) = (pre ++ [39#8]) ++ (encodeUtf8 c ++ 39#8 :: post) := by simp
+    rw [this, List.drop_left' (by simp)]
+  obtain ⟨b, r, hb, hb92⟩ := encode_head_ne_bsl c (by omega) h92
+  have hb0 : b ≠ 0#8 := by
+    intro hz
+    have hm : b.toNat ∈ utf8 c.toNat := by
+      rw [← encode_toNat c (by omega), hb]; simp
+    rw [hz] at hm
+    unfold utf8 at hm
+    split at hm
+    · simp at hm; omega
+    · split at hm
+      · simp at hm; omega
+      · split at hm <;> (simp at hm; omega)
+  have hbyte : byteAt (pre ++ 39#8 :: (encodeUtf8 c ++ 39#8 :: post)) (pre.length + 1) = b :=
+    byteAt_of_drop _ _ b (r ++ 39#8 :: post) (by rw [hd, hb]; rfl)
+  have hl := encode_length c (by omega)
+  have hq : byteAt (pre ++ 39#8 :: (encodeUtf8 c ++ 39#8 :: post)) (pre.length + 1 + utf8Len c.toNat) = 39#8 := by
+    have := drop_add _ (pre.length + 1) (utf8Len c.toNat) _ _ hd hl
+    exact byteAt_of_drop _ _ _ post this
+  unfold readCharLiteral
+  simp only [hbyte, hb0, hb92, if_false, decodeAt_encoded _ _ c _ (by omega) hd, bind, Except.bind, pure, Except.pure]
+  rw [findQuote_here _ _ _ (by simp; omega) hq]
+
+/-- `tok->val` after the per-prefix post-processing, for values in the range of the constant's type -/
+theorem charPost_values :
+    (∀ n, n < 256 → charPost .castChar (BitVec.ofNat 32 n) = BitVec.ofInt 64 (if n < 128 then (n : Int) else (n : Int) - 256)) ∧
+    (∀ c : BitVec 32, c.toNat < 0x10000 → (charPost (.mask 0xFFFF) c).toNat = c.toNat) ∧
+    (∀ c : BitVec 32, (charPost .none c).toInt = c.toInt) := by
+  refine ⟨by decide +kernel, ?_, ?_⟩
+  · intro c hc
+    have hm : c.msb = false := by
+      rw [BitVec.msb_eq_decide]; simp; omega
+    simp only [charPost, BitVec.signExtend_eq_setWidth_of_msb_false hm, BitVec.toNat_and, BitVec.toNat_setWidth,
+      BitVec.toNat_ofNat]
+    have : (65535 : Nat) = 2 ^ 16 - 1 := by decide
+    simp only [Nat.reducePow, Nat.reduceMod]
+    rw [this, Nat.and_two_pow_sub_one_eq_mod]
+    omega
+  · intro c
+    simp only [charPost]
+    exact BitVec.toInt_signExtend_of_le (by decide)
+
 end ChibiVerif.Lemmas.Readers
